@@ -55,6 +55,7 @@ type gen struct {
 	arrays map[int]cx.Op // shared caller arrays of app.Group: id -> the first AG op using it
 	routes map[int][]entry
 	st     *hx.Stats
+	decls  []decl
 	theme  string // mixed | mount | alias
 }
 
@@ -80,7 +81,38 @@ func (g *gen) add(o cx.Op) int {
 	return len(g.script) - 1
 }
 
-func (g *gen) addEntry(r int, e entry) { g.routes[r] = append(g.routes[r], e) }
+func (g *gen) addEntry(r int, e entry) {
+	g.routes[r] = append(g.routes[r], e)
+	if len(e.mounts) == 0 { // a declaration (not a mounted copy): a Route object `Where…` can be called on
+		g.decls = append(g.decls, decl{e.route, r, e.ver, e.path})
+		if g.r.Chance(1, 5) {
+			g.script[e.route].Cons = g.r.Range(1, 2)
+		}
+	}
+}
+
+type decl struct {
+	idx, router, ver int
+	path             []int
+}
+
+// whereOn adds `Where…` calls on routes that were declared on router rt (re-registration when
+// the router is already warmed up)
+func (g *gen) whereOn(rt int, n int) {
+	var ds []decl
+	for _, d := range g.decls {
+		// main-tree routes only: a version-tree route that was registered at warm-up is served from
+		// the per-version compiled table built then, which a later re-registration does not refresh
+		// (C11/C13 territory; recorded in notes/C02.md)
+		if d.router == rt && d.ver < 0 {
+			ds = append(ds, d)
+		}
+	}
+	for ; n > 0 && len(ds) > 0; n-- {
+		d := hx.Pick(g.r, ds)
+		g.add(cx.Op{K: "WH", A: d.router, Ver: d.ver, RI: d.idx, P: d.path})
+	}
+}
 
 type choice struct {
 	w int
@@ -114,7 +146,18 @@ func (g *gen) step() {
 		}
 		g.mount(p, r.Range(p+1, g.nRouters-1))
 	})
-	add(5, true, func() { g.add(cx.Op{K: "W", A: anyRouter()}) })
+	add(5, true, func() {
+		rt := anyRouter()
+		g.add(cx.Op{K: "W", A: rt})
+		// the window the seeded "re-registration" class lives in: warmed up, not yet frozen
+		if r.Chance(1, 2) {
+			if r.Chance(1, 2) && !g.app {
+				g.add(cx.Op{K: "U", A: rt, Hs: g.hs(1, 1)})
+			}
+			g.whereOn(rt, r.Range(1, 2))
+		}
+	})
+	add(3, len(g.decls) > 0, func() { g.whereOn(hx.Pick(r, g.decls).router, 1) })
 	if !g.app {
 		add(14, true, func() { g.add(cx.Op{K: "U", A: anyRouter(), Hs: g.hs(1, 2)}) })
 		add(10, true, func() {
@@ -681,6 +724,18 @@ func fixed() []struct {
 			{K: "R", OK: "r", A: 0, Seg: 5, Hs: []int{10}}},
 			Beh: beh(10, map[int][]cx.Act{3: a("N", "N"), 2: a("A", "N")})},
 			[]cx.Target{{Route: 2, Path: []int{1, 2, 3}, Ver: -1}, {Route: 6, Path: []int{1, 2, 4}, Ver: -1}, {Route: 9, Path: []int{5}, Ver: -1}}},
+		// Where… on a registered route (Warmup, then Use, then WhereInt): re-registration with the middleware of now
+		{caseT{Check: true, Script: []cx.Op{
+			{K: "U", A: 0, Hs: []int{1}}, {K: "R", OK: "r", A: 0, Seg: 1, Hs: []int{2}}, {K: "W", A: 0},
+			{K: "WH", A: 0, Ver: -1, RI: 1, P: []int{1}}, {K: "U", A: 0, Hs: []int{3}}, {K: "WH", A: 0, Ver: -1, RI: 1, P: []int{1}}},
+			Beh: beh(3, nil)},
+			[]cx.Target{{Route: 1, Path: []int{1}, Ver: -1}}},
+		// a sub-router route with two constraints mounted into a parent that is already warmed up
+		{caseT{Check: true, Script: []cx.Op{
+			{K: "NR"}, {K: "U", A: 0, Hs: []int{1}}, {K: "R", OK: "r", A: 0, Seg: 1, Hs: []int{2}}, {K: "W", A: 0},
+			{K: "U", A: 1, Hs: []int{3}}, {K: "R", OK: "r", A: 1, Seg: 2, Hs: []int{4}, Cons: 2}, {K: "M", A: 0, B: 1, Seg: 3}},
+			Beh: beh(4, nil)},
+			[]cx.Target{{Mounts: []int{6}, Route: 5, Path: []int{3, 2}, Ver: -1}, {Route: 2, Path: []int{1}, Ver: -1}}},
 		// abort after Next returned; cancel with the check off; nested Next
 		{caseT{Check: false, Script: []cx.Op{
 			{K: "U", A: 0, Hs: []int{1, 2}}, {K: "R", OK: "r", A: 0, Seg: 1, Hs: []int{3, 4, 5}}},
